@@ -194,6 +194,48 @@ Proof.
   all: split; [first [reflexivity|left; reflexivity|right; reflexivity]|intros c' Hc'; try done; subst; auto].
 Qed.
 
+Lemma pipeline_did_beh : did_beh beh has_closed.
+Proof.
+  intros l. destruct l as
+    [rest| |i|i id|i id|i id|i|i|i v| | | |id|id| | | | | | |j|j v| | | |v|r v|r]; simpl; try done.
+  - destruct rest as [|[id b] r]; simpl; [intros c' ->; left; reflexivity|].
+    intros g k r0 c Hin. alts Hin; simpl; done.
+  - intros c' ->. left. reflexivity.
+  - intros g k r0 c Hin. alts Hin; simpl; try done. destruct r0 as [v| | | |]; simpl; try done.
+    destruct v as [id b|id|id|id|]; simpl; try done. destruct b; done.
+  - intros o c. destruct (fill_ok id); done.
+  - intros g k r0 c Hin. alts Hin; simpl; done.
+  - intros g k r0 c Hin. alts Hin; simpl; done.
+  - intros c' ->. left. reflexivity.
+  - intros g k r0 c Hin. alts Hin; simpl; try done. destruct r0; done.
+  - intros g k r0 c Hin. alts Hin; simpl; done.
+  - intros c' ->. left. reflexivity.
+  - intros g k r0 c Hin. alts Hin; simpl; try done. destruct r0 as [v| | | |]; simpl; try done. destruct v; done.
+  - intros g k r0 c Hin. alts Hin; simpl; done.
+  - intros o c. destruct (write_ok id); done.
+  - intros c' ->. left. reflexivity.
+  - intros c' [->| ->]; [right; reflexivity|left; reflexivity].
+  - intros g k r0 c Hin. alts Hin; simpl; done.
+  - intros o c. destruct o as [|[|o]]; done.
+  - intros g k r0 c Hin. alts Hin; simpl; done.
+  - intros c' ->. left. reflexivity.
+  - intros g k r0 c Hin. alts Hin; simpl; try done. destruct r0; done.
+  - intros g k r0 c Hin. alts Hin; simpl; done.
+  - intros c' ->. left. reflexivity.
+  - intros g k r0 c Hin. alts Hin; simpl. destruct r0; done.
+  - intros g k r0 c Hin. apply elem_of_nil in Hin. destruct Hin.
+Qed.
+
+Lemma init_did cap : did_ok has_closed (init N cap reqs).
+Proof.
+  intros j l c Hj Hd. exfalso. simpl in Hj. unfold init_procs in Hj. apply elem_of_list_lookup_2 in Hj.
+  rewrite !elem_of_app in Hj. destruct Hj as [H|[H|[H|H]]].
+  - apply elem_of_list_singleton in H. subst. done.
+  - apply elem_of_list_fmap in H. destruct H as (? & -> & _). done.
+  - apply elem_of_list_fmap in H. destruct H as (? & -> & _). done.
+  - repeat (apply elem_of_cons in H; destruct H as [->|H]; [done|]). set_solver.
+Qed.
+
 Lemma init_needs cap : needs_ok needs (init N cap reqs).
 Proof.
   intros _ j l c Hj Hc. exfalso. simpl in Hj. unfold init_procs in Hj. apply elem_of_list_lookup_2 in Hj.
